@@ -2,6 +2,7 @@
 import itertools
 import random
 
+import harness
 import session
 import wkd
 from wkd import R, alist, fixed_list, free_slots, pstr
@@ -74,6 +75,17 @@ def worker(sh):
         la = sorted(other + [(i, a_)])
         lb = sorted(other + [(i, b_)])
         sc.add('precmp 0 %s %s %s' % (alist(la), alist(lb), alist(la)), 'precmp', lists=[la, lb, la])
+    # ---- two views of ONE attribute array: a caller that keeps a single array and passes the list, its first k entries, its last k
+    # entries, or the very same list as `from` and `to` ('=' asks the driver to make the related list a view of the other's storage)
+    for _ in range(sh.pick(3, 12)):
+        n = min(l, rng.choice([2, 3, 4, 6]))
+        idxs = sorted(rng.sample(range(l), n))
+        la = [(i, (None if rng.random() < 0.15 else rng.choice(BIG + [rng.getrandbits(256)]))) for i in idxs]
+        k1, k2 = rng.randrange(1, n), rng.randrange(1, n)
+        chain = [la, la[:k1], la, la[k2:], la, la, la[:k2], la[:k1] if k1 <= k2 else la[:k2]]
+        hid = {i: rng.getrandbits(256) for i, v in la if v is None}
+        toks = [alist(chain[0], False, hid)] + ['=' + alist(e, rng.random() < 0.2, hid) for e in chain[1:]]
+        sc.add('precmp 0 %s' % ' '.join(toks), 'precmp', lists=chain, shared=True)
     # ---- adjust_nondelegable vs direct qualification, component for component
     parents = []
     for _ in range(sh.pick(2, 6)):
@@ -99,9 +111,22 @@ def worker(sh):
         for frm, to in combos:
             # hidden entries carry an arbitrary id: it must be ignored
             frm = [(i, v) for i, v in frm]
-            oa_to = rng.random() < 0.1
-            line = 'adjcmp 0 %d %s %s' % ((kid,) + wkd.alist_pair(frm, to, rng, oa_to))
-            sc.add(line, 'adjcmp', frm=frm, to=to, parent=pat, oa=oa_to)
+            t = rng.random()
+            if t < 0.25:
+                # same slots, ids only just different (or the same): a shortcut that compares part of an id, or skips work for "equal" lists
+                to = [(i, (v if (v is None or isinstance(pat[i], tuple) or rng.random() < 0.3) else wkd.near(v, rng))) for i, v in frm]
+            oa_to = rng.random() < 0.25
+            oa_from = rng.random() < 0.2
+            if t >= 0.25 and t < 0.4 and len(frm) > 1:
+                # `to` is a view of the first or last entries of `from` (or all of them)
+                k = rng.randrange(1, len(frm) + 1)
+                to = frm[:k] if rng.random() < 0.5 else frm[len(frm) - k:]
+                hid = {i: rng.getrandbits(256) for i, v in frm if v is None}
+                line = 'adjcmp 0 %d %s =%s' % (kid, alist(frm, oa_from, hid), alist(to, oa_to, hid))
+            else:
+                af, at = wkd.alist_pair(frm, to, rng, oa_to, oa_from)
+                line = 'adjcmp 0 %d %s %s%s' % (kid, af, '=' if rng.random() < 0.5 else '', at)
+            sc.add(line, 'adjcmp', frm=frm, to=to, parent=pat, oa=oa_to, oaf=oa_from)
     # ---- precomputed forms interchangeable with direct forms
     for kid, pat in parents[:2]:
         fl = fixed_list(pat)
@@ -117,6 +142,7 @@ def worker(sh):
                 sc.add('sign %d %d 0 %s %s %d %d %s' % (sid, kid, alist(ext), wkd.idhex(msg), sc.seed(), mode, alist(ext)), 'sign', mode=mode)
                 sc.add('verify %d 0 %s %s' % (sid, alist(ext), wkd.idhex(msg)), 'verify', expect=1, mode=mode)
     outs = session.run_all(sh, sh.payload['cfgs'], sc.lines)
+    sh.count('scheme_ops_with_crafted_random_streams', getattr(sc, 'nstream', 0))
     for line, (kind, kw), out in zip(sc.lines, sc.exp, outs):
         if out is None:
             continue
@@ -136,11 +162,15 @@ def worker(sh):
                         big = any((v or 0) >= R for _, v in lists[si] + lists[si + 1])
                         fail('adjust_precomputed:%s' % ('ids>=r' if big else 'ids<r'),
                              'adjust_precomputed(precompute(from), from->to) != precompute(to) at step %d (%s)' % (si + 1, cls))
-                    sh.event('adjust_precomputed', cls + ('/chain%d' % len(lists) if len(lists) > 2 else ''))
+                    sh.event('adjust_precomputed', cls + ('/chain%d' % len(lists) if len(lists) > 2 else '') + ('/views-of-one-array' if kw.get('shared') else ''))
+                if kw.get('shared'):
+                    sh.count('adjust_calls_with_shared_list_storage', int(kv.get('shared', 0)))
+                    if int(kv.get('shared', 0)) < len(lists) - 2:
+                        raise harness.HarnessError('driver shared storage in only %s of %d steps: %s' % (kv.get('shared'), len(lists) - 1, line[:200]))
                 if sh.index == 0:
-                    sh.sample({'op': 'adjust_precomputed', 'lists': [[(i, hex(v)) for i, v in e] for e in lists], 'steps': steps}, limit=2)
+                    sh.sample({'op': 'adjust_precomputed', 'lists': [[(i, (hex(v) if v is not None else 'hidden')) for i, v in e] for e in lists], 'steps': steps}, limit=2)
             elif kind == 'adjcmp':
-                cls = list_kind(kw['frm'], kw['to']) + ('/omitAll' if kw['oa'] else '')
+                cls = list_kind(kw['frm'], kw['to']) + ('/omitAll' if kw['oa'] else '') + ('/fromOmitAll' if kw['oaf'] else '')
                 for f in ('a0', 'a1', 'slots', 'bsig'):
                     if kv[f] != '1':
                         fail('adjust_nondelegable:%s' % f, 'adjusted key differs from qualifying the parent directly in %s (parent %s, %s)' % (f, pstr(kw['parent']), cls))
@@ -149,7 +179,8 @@ def worker(sh):
                     fail('adjust_nondelegable:l', 'slot counts differ %s' % kv['l'])
                 if kv['overflow'] != '0':
                     fail('adjust_nondelegable:overrun', 'slot array overrun')
-                sh.event('adjust_nondelegable', cls)
+                sh.event('adjust_nondelegable', cls + ('/views-of-one-array' if 'shared' in kv else ''))
+                sh.count('adjust_calls_with_shared_list_storage', int(kv.get('shared', 0)))
                 if sh.index == 1:
                     sh.sample({'op': 'adjust_nondelegable', 'parent': pstr(kw['parent']), 'from': str(kw['frm'])[:200], 'to': str(kw['to'])[:200], 'monitor': ' '.join(out[1:])}, limit=2)
             elif kind == 'dec':
